@@ -205,12 +205,17 @@ def parse_unit(name, vacuity=False):
             file, rest = rest.split(None, 1)
             derive = None
             extra_attr = []
+            force_pub = False
+            m = re.search(r"\s+vis=pub$", rest)
+            if m:
+                force_pub = True
+                rest = rest[:m.start()]
             m = re.search(r"\s+derive=([A-Za-z0-9_,:]*)$", rest)
             if m:
                 derive = [x for x in m.group(1).split(",") if x]
                 rest = rest[:m.start()]
             nm = rest.strip()
-            emit_item(u, file, nm, derive)
+            emit_item(u, file, nm, derive, force_pub)
             i += 1
         elif s.startswith("//@stub "):
             rest = s[len("//@stub "):]
@@ -250,7 +255,7 @@ def check_stub(u, file, nm, sig):
                     "sha256": sha(b[it["start"]:it["end"]])})
 
 
-def emit_item(u, file, nm, derive):
+def emit_item(u, file, nm, derive, force_pub=False):
     it = find_item(file, nm)
     b = src_bytes(file)
     start, end = it["start"], it["end"]
@@ -271,7 +276,11 @@ def emit_item(u, file, nm, derive):
         # the whole unit is one private module: item visibility is dropped (Verus refuses `pub(crate)` datatypes
         # in specs and refuses private spec fns in contracts of `pub` fns)
         pieces.append(b[pos:vis["start"]])
-        u.edits.append("%s::%s: visibility `%s` dropped" % (file, nm, b[vis["start"]:vis["end"]].decode()))
+        if force_pub:
+            pieces.append(b"pub")
+            u.edits.append("%s::%s: visibility `%s` -> `pub`" % (file, nm, b[vis["start"]:vis["end"]].decode()))
+        else:
+            u.edits.append("%s::%s: visibility `%s` dropped" % (file, nm, b[vis["start"]:vis["end"]].decode()))
         pos = vis["end"]
     pieces.append(b[pos:end])
     txt = b"".join(pieces).decode()
@@ -364,6 +373,8 @@ def emit_fn(u, file, nm, block):
     # impl wrapper
     if it["impl_header"] is not None:
         u.emit(it["impl_header"].rstrip() + " {", {"kind": "impl-header", "fn": fname, "props": props})
+        if it.get("impl_extra", "").strip():
+            u.emit(it["impl_extra"].rstrip("\n"), {"kind": "impl-header", "fn": fname, "props": props})
     for a in attrs:
         u.emit(a, dict(info_base, part="attr"))
 
